@@ -123,6 +123,14 @@ CHECKS["C07"] = ("model-based property-based testing (Hypothesis) over generated
             "leave no trace, documented refusals happen, the original is untouched by its copy.",
             "Trusted: the reference model in vf/checks/c07.py (refusal rules from docs/en/references/field.md, options.md); element validity via utype.type_transform on the field type alone.", "3/C07")
 
+CHECKS["C08"] = ("differential property-based testing (Hypothesis): generated signatures (source exec-ed) x contexts x wrapper kinds x calls built from a logical parameter assignment and re-spelled; the recording body of the decorated function is compared with the assignment (each value replaced by its standalone parse); generator scripts against the undecorated protocol",
+            "hypothesis",
+            "Exploration: signatures over the five parameter kinds with annotations, plain/Param/default_factory defaults, alias_from and case-insensitive names, *args: T, **kwargs: T and a "
+            "return annotation, as function / instance method / classmethod / staticmethod, sync / coroutine / generator / async generator (lazy and eager); every parameter valid, convertible "
+            "or invalid, passed by position, by name, by alias or by case variant; Python's own bind succeeds on the canonical spelling. Compared: what the body received, that the body "
+            "does not run after an invalid parameter, the converted return value, and for generators the yielded / sent / returned values of a next/send script.",
+            "Trusted: inspect.Signature.bind as the precondition; utype.type_transform on a single annotation as the meaning of 'converted'; coroutines driven with send(None).", "3/C08")
+
 NOT_YET = "check not built yet in this round (planned, see DESIGN.md section 3)"
 
 
